@@ -67,6 +67,13 @@ def run(rep, tier):
                f"(multi {ST} int)", f"(multi {ST} (struct (a int) (b float)) string)",
                f"(multi (arr {ST}) (arr int))", f"(multi (mut {ST}) int)"]
     multis = crafted + multis
+    # unions nested three levels deep: two independently built copies are equal, and equal as cell contents
+    deep3 = ["(multi (arr (multi (arr (multi int float)) string)) bool)", "(multi (fun () (multi (fun () (multi int float)) string)) bool)", "(mut (multi (arr (multi (arr (multi int float)) string)) bool))", "(multi (tup (multi (tup (multi int float) int) string) int) bool)", "(multi (arr (multi (struct (a (multi int float)) (b (multi string bool))) string)) bool)", "(arr (multi (arr (multi (arr (multi int float)) string)) bool))", "(multi (mut (multi (mut (multi int float)) string)) bool)", "(fun ((multi (arr (multi (arr (multi int float)) string)) bool)) (multi (arr (multi (arr (multi int float)) string)) bool))"]
+    for t in deep3:
+        for _ in range(6):
+            cases.append(f"(ty-eq {t} {t})")
+            cases.append(f"(ty-matches (mut {t}) (mut {t}))")
+    multis = [t for t in deep3 if t.startswith("(multi")] + multis
     for t in multis[:56]:
         parts = sast_split(t)
         for perm in itertools.islice(itertools.permutations(parts), 6):
